@@ -567,7 +567,47 @@ class Engine:
             v = c[1]
         else:
             v = self._assemble(o, off, n)
+            if v is UNDEF and k == 'int' and o.kind != 'func':
+                v = self._junk_load(st, oid, off, n)
         return self._as_type(v, ty)
+
+    def _junk_load(self, st, oid, off, n):
+        """integer load that touches uninitialised bytes: the bytes get arbitrary-but-fixed symbolic values
+        ('junk'); a branch or an address that DEPENDS on junk is reported by the uninitialised-read monitor,
+        bit operations that mask the junk away (std::vector<bool> words) are fine."""
+        o = st.wobj(oid)
+        cells = o.cells
+        # which bytes are covered by cells?
+        covered = set()
+        for o2 in range(max(0, off - 15), off + n):
+            c = cells.get(o2)
+            if c is not None:
+                covered.update(range(o2, o2 + c[0]))
+        for b in range(off, off + n):
+            if b not in covered:
+                cells[b] = (1, z3.BitVec(self.fresh('junk'), 8))
+            else:
+                c = cells.get(b)
+                if c is not None and c[1] is UNDEF:
+                    cells[b] = (1, z3.BitVec(self.fresh('junk'), 8))
+        v = self._assemble(o, off, n)
+        if v is UNDEF:
+            # an UNDEF value stored by a wider store: replace it
+            bs = []
+            for b in range(off, off + n):
+                cells.pop(b, None)
+            self._clear(o, off, n)
+            v = z3.BitVec(self.fresh('junk'), 8 * n)
+            cells[off] = (n, v)
+        return v
+
+    def has_junk(self, e):
+        if not isinstance(e, z3.ExprRef):
+            return False
+        s = e.sexpr() if e.num_args() < 64 else None
+        if s is not None:
+            return 'junk!' in s
+        return 'junk!' in e.sexpr()
 
     def _as_type(self, v, ty):
         k = ty.k
@@ -807,6 +847,8 @@ class Engine:
             return [(st, True)]
         if z3.is_false(c):
             return [(st, False)]
+        if self.has_junk(c):
+            raise PathEnd('uninit', 'branch depends on uninitialised memory')
         nc = z3.Not(c)
         r1, m1 = self.feasible(st, c)
         if r1 == 'unsat':
@@ -841,6 +883,8 @@ class Engine:
         v = z3.simplify(v)
         if z3.is_bv_value(v):
             return [(st, v.as_long())]
+        if self.has_junk(v):
+            raise PathEnd('uninit', '%s depends on uninitialised memory' % what)
         out = []
         excl = []
         cur = st
